@@ -44,6 +44,8 @@ pub struct StartLookup {
 pub struct AIDGenerator { pub g: u64 }
 impl AIDGenerator {
     #[verifier::external_body]
+    pub fn new() -> AIDGenerator { unimplemented!() }
+    #[verifier::external_body]
     pub fn generate(&mut self) -> MIDGenerator { unimplemented!() }
 }
 // TRUSTED: std::mem::take leaves Default::default() behind and returns the old value; Vec's default is empty
